@@ -29,38 +29,93 @@ Definition nruns (k : nat) (d : diagram) : nat :=
   let fuel := S (fold_right (fun b a => size_blk b + a) 0 d) in
   fold_left (fun a b => a * nruns_blk fuel k b) d 1.
 
-(** membership of each run of d1 (loops <= k1) in the language of d2, with the loop bound on the
-    d2 side chosen per run as its largest event multiplicity (capped at kmax, and refused when the
-    enumeration of d2 would exceed [cap] runs).
-    Result: (indices of runs definitely not in d2, indices undecided because of the caps). *)
-Definition incl_adaptive (kmax cap k1 : nat) (d1 d2 : diagram) : list nat * list nat :=
-  let l1 := jobs k1 d1 in
-  let langs := map (fun k => if Nat.leb (nruns k d2) cap then Some (lang k d2) else None) (seq 1 kmax) in
-  let verdict := fun g =>
-      let k := max_mult g in
-      if Nat.ltb kmax k then 2 else
-      match nth (k - 1) langs None with
-      | Some l => if mem_canon (canon g) l then 0 else
-                    (* try the larger bounds too before giving a definite no *)
-                    if existsb (fun o => match o with Some l' => mem_canon (canon g) l' | None => false end) langs then 0
-                    else if forallb (fun o => match o with Some _ => true | None => false end) langs then 1 else 2
-      | None => 2
-      end in
-  let vs := map verdict l1 in
-  let idxs := combine (seq 0 (length vs)) vs in
-  (map fst (filter (fun p => Nat.eqb (snd p) 1) idxs), map fst (filter (fun p => Nat.eqb (snd p) 2) idxs)).
+(** lexicographic order on canonical forms, merge sort with de-duplication, and linear-time
+    difference of sorted lists: language comparison is O(n log n) instead of O(n^2) *)
+Fixpoint lc_cmp (a b : list ctree) : comparison :=
+  match a, b with
+  | [], [] => Eq
+  | [], _ :: _ => Lt
+  | _ :: _, [] => Gt
+  | x :: a', y :: b' => match ct_cmp x y with Eq => lc_cmp a' b' | c => c end
+  end.
 
-(** jobs (given explicitly) rejected by d under the same adaptive bound *)
+Definition keyed := (nat * list ctree * nat)%type.      (* index, canonical form, largest multiplicity *)
+Definition kc (t : keyed) : list ctree := snd (fst t).
+
+Fixpoint merge_k (a : list keyed) : list keyed -> list keyed :=
+  match a with
+  | [] => fun b => b
+  | x :: a' =>
+      fix inner (b : list keyed) : list keyed :=
+        match b with
+        | [] => a
+        | y :: b' => match lc_cmp (kc x) (kc y) with
+                     | Gt => y :: inner b'
+                     | _ => x :: merge_k a' b
+                     end
+        end
+  end.
+Fixpoint merge_pairs (l : list (list keyed)) : list (list keyed) :=
+  match l with a :: b :: r => merge_k a b :: merge_pairs r | _ => l end.
+Fixpoint merge_all (fuel : nat) (l : list (list keyed)) : list keyed :=
+  match fuel with
+  | O => concat l
+  | S f => match l with [] => [] | [a] => a | _ => merge_all f (merge_pairs l) end
+  end.
+Definition sort_k (l : list keyed) : list keyed := merge_all (S (length l)) (map (fun x => [x]) l).
+
+(** elements of the sorted list [a] whose form does not occur in the sorted list [b] *)
+Fixpoint diff_k (a : list keyed) : list keyed -> list keyed :=
+  match a with
+  | [] => fun _ => []
+  | x :: a' =>
+      fix inner (b : list keyed) : list keyed :=
+        match b with
+        | [] => a
+        | y :: b' => match lc_cmp (kc x) (kc y) with
+                     | Lt => x :: diff_k a' b
+                     | Eq => diff_k a' b
+                     | Gt => inner b'
+                     end
+        end
+  end.
+
+Definition sorted_lang (k : nat) (d : diagram) : list keyed :=
+  sort_k (map (fun g => (0, canon g, 0)) (jobs k d)).
+
+(** iterative deepening on the loop bound of the accepting diagram [d]: forms in [todo] (sorted)
+    still unmatched are tried against lang k d for k = k0, k0+1, ... as long as k <= kmax and the
+    enumeration stays under [cap] runs.
+    Result: (definitely not in the language, undecided because of the caps). *)
+Fixpoint deepen (fuel k kmax cap : nat) (d : diagram) (todo : list keyed) : list nat * list nat :=
+  match todo with
+  | [] => ([], [])
+  | _ =>
+    match fuel with
+    | O => ([], map (fun t => fst (fst t)) todo)
+    | S f =>
+        if Nat.ltb kmax k then
+          (map (fun t => fst (fst t)) (filter (fun t => Nat.leb (snd t) kmax) todo),
+           map (fun t => fst (fst t)) (filter (fun t => negb (Nat.leb (snd t) kmax)) todo))
+        else if negb (Nat.leb (nruns k d) cap) then ([], map (fun t => fst (fst t)) todo)
+        else deepen f (S k) kmax cap d (diff_k todo (sorted_lang k d))
+    end
+  end.
+
+Definition with_meta (gs : list jobgraph) : list keyed :=
+  sort_k (map (fun p => (fst p, canon (snd p), max_mult (snd p))) (combine (seq 0 (length gs)) gs)).
+
+(** membership of each run of d1 (loops <= k1) in the language of d2 *)
+Definition incl_adaptive (kmax cap k1 : nat) (d1 d2 : diagram) : list nat * list nat :=
+  if Nat.leb (nruns k1 d1) cap
+  then deepen (S kmax) 2 kmax cap d2 (with_meta (jobs k1 d1))
+  else ([], [0]).     (* too many runs to enumerate: undecided *)
+
+(** jobs (given explicitly) rejected by d *)
 Definition rejected_adaptive (kmax cap : nat) (d : diagram) (js : list jobgraph) : list nat * list nat :=
-  let langs := map (fun k => if Nat.leb (nruns k d) cap then Some (lang k d) else None) (seq 1 kmax) in
-  let verdict := fun g =>
-      if negb (topo_b g) then 1 else
-      if existsb (fun o => match o with Some l' => mem_canon (canon g) l' | None => false end) langs then 0
-      else if forallb (fun o => match o with Some _ => true | None => false end) langs
-              && Nat.leb (max_mult g) kmax then 1 else 2 in
-  let vs := map verdict js in
-  let idxs := combine (seq 0 (length vs)) vs in
-  (map fst (filter (fun p => Nat.eqb (snd p) 1) idxs), map fst (filter (fun p => Nat.eqb (snd p) 2) idxs)).
+  let bad := map fst (filter (fun p => negb (topo_b (snd p))) (combine (seq 0 (length js)) js)) in
+  let r := deepen (S kmax) 2 kmax cap d (with_meta (filter topo_b js)) in
+  match bad with [] => r | _ => (bad ++ fst r, snd r) end.
 
 (** C05 certificate for one emitted token list: parses (grammar membership, by parse_sound),
     group name as requested, event set equal to the observed event types *)
